@@ -6,6 +6,7 @@ import Schc.Properties.C03
 import Schc.Properties.C04
 import Schc.Properties.C07
 import Schc.Properties.C08
+import Schc.Properties.C09
 import Schc.Properties.C10
 import Schc.Properties.C11
 import Schc.Properties.C14
